@@ -5,7 +5,8 @@
                              buffered path: append to historyData, hand out historyData[:end],
                              advance historyData[end:], historyData = nil when consumed),
                              parse / completePack (stores Body slices, concatenates into a fresh buffer,
-                             the completed message shares the JTMessage of the last packet)
+                             the completing packet's Body is replaced by the merged data; since fix a3fb0a0 the
+                             completed message has its own JTMessage / Header copy and shares only that body slice)
      service/message.go      newTerminalMessage keeps the caller's slice as TerminalData
      protocol/jt808          unescape returns data[1:len-1] when the frame holds no 0x7d, a fresh
                              buffer otherwise; Decode makes Body and the BCD phone sub-slices of that
@@ -159,7 +160,8 @@ Definition received (slots : list slice) : nat :=
   length (filter (fun s => negb (s_len s =? 0)%nat) slots).
 
 (* returns the heap, the records, the message itself (its Body is replaced by the merged data
-   when it completes a transfer: the completed message shares its *JTMessage) and the completed
+   when it completes a transfer: completeMsg.Body = data runs while the *JTMessage is still shared,
+   before the completed message gets its own copy) and the completed
    message if there is one *)
 Definition complete_pack (h : heap) (r : recs) (m : dmsg) : heap * recs * dmsg * option dmsg :=
   let hd := d_hdr m in
